@@ -12,6 +12,8 @@ import DoltVerif.Lemmas.BuildWF
 import DoltVerif.Lemmas.Window
 import DoltVerif.Lemmas.MutMapRefine
 import DoltVerif.Lemmas.MutContent
+import DoltVerif.Lemmas.OrdinalPath
+import DoltVerif.Lemmas.CursorOrder
 namespace DoltVerif.C11
 open DoltVerif.Prolly DoltVerif.SortedDict
 
@@ -294,6 +296,123 @@ theorem iterRange_refines_partial [Inhabited κ] {cmp : κ → κ → Ordering} 
       omega
     simp only [this, if_false, List.filter_nil] at hwin
     rw [← hwin]
+
+/-- two cursors positioned by monotone-predicate searches in a well-formed map are consistent -/
+theorem search_cursors_consistent [Inhabited κ] {cmp : κ → κ → Ordering} (hc : TotalPreorder cmp) (t : Tree κ ν)
+    (h : WF cmp t) (hne : t.height = 0 ∨ t.root ≠ []) {pLo pHi : κ → Bool} (hLo : Mono cmp pLo) (hHi : Mono cmp pHi)
+    (lo hi : List Nat) (hlo : seekPath (psearch pLo) t.height t.root = some lo)
+    (hhi : seekPath (psearch pHi) t.height t.root = some hi) : CursorsConsistent t lo hi :=
+  seek_cursors_consistent hc hLo hHi t.height t.root h.node h.sorted hne lo hi hlo hhi
+
+/-- **`iterRange_refines`**: on every well-formed map `Map.IterRange(rng)` yields exactly the
+entries whose key `Matches` the range, in key order — for every bound kind (inclusive, exclusive,
+unbounded, equal bounds), including empty and inverted ranges (`[]`) — provided the range's
+start/stop predicates are monotone along the key order (true for lexicographic tuple comparators;
+C15).  `compareCursors` and the iterator's first dereference are covered by
+`search_cursors_consistent`. -/
+theorem iterRange_refines [Inhabited κ] {cmp : κ → κ → Ordering} (hc : TotalPreorder cmp) (t : Tree κ ν)
+    (h : WF cmp t) (hne : t.height = 0 ∨ t.root ≠ []) (fcmp : FieldCmp κ β) (r : List (RangeField β))
+    (hok : ∀ f ∈ r, FieldOk fcmp f)
+    (hLo : Mono cmp (fun k => aboveStart fcmp k 0 r)) (hHi : Mono cmp (fun k => !belowStop fcmp k 0 r)) :
+    t.iterRange fcmp r = some (t.flatten.filter (fun kv => rangeMatches fcmp kv.1 0 r)) := by
+  have ha := seek_ordinal_refines hc t h hne _ hLo
+  have hb := seek_ordinal_refines hc t h hne _ hHi
+  unfold Tree.seekOrdinal at ha hb
+  cases hlo : seekPath (psearch (fun k => aboveStart fcmp k 0 r)) t.height t.root with
+  | none => rw [hlo] at ha; cases ha
+  | some lo =>
+    cases hhi : seekPath (psearch (fun k => !belowStop fcmp k 0 r)) t.height t.root with
+    | none => rw [hhi] at hb; cases hb
+    | some hi =>
+      exact iterRange_refines_partial hc t h hne fcmp r hok hLo hHi lo hi hlo hhi
+        (search_cursors_consistent hc t h hne hLo hHi lo hi hlo hhi)
+
+theorem rankP_searchForKey (cmp : κ → κ → Ordering) (k : κ) (l : List (κ × ν)) :
+    rankP (fun x => cmp k x != .gt) l = rank cmp l k := by
+  unfold rankP rank
+  have : (fun kv : κ × ν => !(cmp k kv.1 != .gt)) = (fun kv => cmp k kv.1 == .gt) := by
+    funext kv; cases cmp k kv.1 <;> rfl
+  rw [this]
+
+/-- **`IterKeyRange(start, stop)` with both bounds refines the dictionary**: the entries from the
+first key ≥ `start` up to (not including) the first key ≥ `stop`; `[]` when the range is empty or
+inverted. -/
+theorem iterKeyRange_refines [Inhabited κ] {cmp : κ → κ → Ordering} (hc : TotalPreorder cmp) (t : Tree κ ν)
+    (h : WF cmp t) (hne : t.height = 0 ∨ t.root ≠ []) (a b : κ) :
+    t.iterKeyRange cmp (some a) (some b) = some (t.slice (rank cmp t.flatten a) (rank cmp t.flatten b)) := by
+  have hLo := mono_searchForKey hc a
+  have hHi := mono_searchForKey hc b
+  have ha := seek_ordinal_refines hc t h hne _ hLo
+  have hb := seek_ordinal_refines hc t h hne _ hHi
+  rw [rankP_searchForKey] at ha hb
+  unfold Tree.seekOrdinal at ha hb
+  rw [← searchForKey_eq_psearch] at ha hb
+  unfold Tree.iterKeyRange Tree.keyRangePaths Tree.atKeyPath
+  cases hlo : seekPath (searchForKey cmp a) t.height t.root with
+  | none => rw [hlo] at ha; cases ha
+  | some lo =>
+    cases hhi : seekPath (searchForKey cmp b) t.height t.root with
+    | none => rw [hhi] at hb; cases hb
+    | some hi =>
+      rw [hlo] at ha; rw [hhi] at hb
+      simp only at ha hb
+      have hcur := search_cursors_consistent hc t h hne hLo hHi lo hi
+        (by rw [← searchForKey_eq_psearch]; exact hlo) (by rw [← searchForKey_eq_psearch]; exact hhi)
+      simp only [bind, Option.bind, pure, hlo, hhi]
+      unfold Tree.iterPaths
+      by_cases hcmp : cmpPath lo hi = .lt
+      · obtain ⟨kv, hkv⟩ := Option.isSome_iff_exists.mp (hcur.2 hcmp)
+        simp only [hcmp, bne_self_eq_false, Bool.false_eq_true, if_false, hkv, ha, hb]
+      · have hle := hcur.1 hcmp _ _ ha hb
+        have hne' : (cmpPath lo hi != .lt) = true := by simpa using hcmp
+        simp only [hne', if_true, Option.some.injEq]
+        unfold Tree.slice
+        have : ¬ (rank cmp t.flatten a < rank cmp t.flatten b) := by omega
+        simp [this]
+
+/-- **`IterOrdinalRange(start, stop)` refines the dictionary**: for `start < stop ≤ Count` it
+yields exactly the entries at positions `start … stop-1` (cursor at ordinal `start`, stop cursor at
+ordinal `stop`, `newCursorPastEnd` when `stop = Count`); the degenerate and error cases are as
+the code has them (`stop = start` ⇒ empty, `stop < start` ⇒ invalid bounds, `stop > Count` ⇒ out
+of bounds). -/
+theorem iterOrdinalRange_refines [Inhabited κ] {cmp : κ → κ → Ordering} (t : Tree κ ν) (h : WF cmp t)
+    (hne : t.height = 0 ∨ t.root ≠ []) (start stop : Nat) :
+    t.iterOrdinalRange start stop =
+      if stop = start then .ok []
+      else if stop < start then .error .invalidBounds
+      else if stop > t.flatten.length then .error .outOfBounds
+      else .ok ((t.flatten.drop start).take (stop - start)) := by
+  have hcount : t.count = t.flatten.length := treeCount_eq_length t.height t.root h.node
+  unfold Tree.iterOrdinalRange
+  by_cases h1 : stop = start
+  · simp [h1]
+  · by_cases h2 : stop < start
+    · simp [h1, h2]
+    · by_cases h3 : stop > t.flatten.length
+      · simp [h1, h2, h3, hcount]
+      · have hlt : start < stop := by omega
+        have hstart : start < t.flatten.length := by omega
+        simp only [h1, h2, hcount, h3, if_false]
+        obtain ⟨lo, hlo1, hlo2, hlo3⟩ := ordinalPath_spec t.height t.root start h.node hstart
+        have hloAt : t.atOrdinalPath start = some lo := by
+          unfold Tree.atOrdinalPath
+          have : ¬ (start ≥ t.count) := by rw [hcount]; omega
+          simp only [this, if_false]; exact hlo1
+        have hitem : ∃ kv, pathItem t.height t.root lo = some kv := by
+          rw [hlo3]; exact ⟨_, List.getElem?_eq_getElem hstart⟩
+        obtain ⟨kv, hkv⟩ := hitem
+        have hhi : ∃ hi, t.atOrdinalPath stop = some hi ∧ pathOrdinal t.height t.root hi = some stop := by
+          unfold Tree.atOrdinalPath
+          by_cases hge : stop ≥ t.count
+          · have hs : stop = t.flatten.length := by rw [hcount] at hge; omega
+            simp only [hge, if_true]
+            exact ⟨_, rfl, by rw [pastEndPath_ordinal t.height t.root h.node hne, hs]; rfl⟩
+          · simp only [hge, if_false]
+            have hstop : stop < t.flatten.length := by rw [hcount] at hge; omega
+            obtain ⟨hi, hh1, hh2, _⟩ := ordinalPath_spec t.height t.root stop h.node hstop
+            exact ⟨hi, hh1, hh2⟩
+        obtain ⟨hi, hhi1, hhi2⟩ := hhi
+        simp only [hloAt, hhi1, hkv, hlo2, hhi2, Tree.slice, hlt, if_true]
 
 /-! ### flushing: `ApplyMutations` keeps the map a well-formed sorted dictionary -/
 
